@@ -41,6 +41,10 @@ CB_SRC = {
     22: 'fn cb22<\'s>(lex: &mut L<\'s>) { zoo_rt::called(); bump1(lex) }',
     25: 'fn cb25<\'s>(_lex: &mut L<\'s>) -> Option<()> { zoo_rt::called(); None }',
     26: 'fn cb26<\'s>(_lex: &mut L<\'s>) -> bool { zoo_rt::called(); false }',
+    # kinds written as closures that hand the lexer to a helper and go on with its result (`|lex| cb27i(lex) == false`,
+    # `|lex| cb28i(lex).filter(|_| false)`): what counts is the closure's value, not the helper's
+    27: 'fn cb27<\'s>(lex: &mut L<\'s>) -> bool { zoo_rt::called(); sel(lex) == 0 } fn cb27i<\'s>(lex: &mut L<\'s>) -> bool { zoo_rt::called(); sel(lex) != 0 }',
+    28: 'fn cb28<\'s>(_lex: &mut L<\'s>) -> Option<()> { zoo_rt::called(); None } fn cb28i<\'s>(lex: &mut L<\'s>) -> Option<()> { zoo_rt::called(); if sel(lex) == 0 { None } else { Some(()) } }',
     23: 'fn cb23<\'s>(lex: &mut L<\'s>) -> Result<(), ZErr> { zoo_rt::called(); if sel(lex) == 0 { Err(ZErr::Default) } else { Ok(()) } }',
     24: 'fn cb24<\'s>(lex: &mut L<\'s>) -> logos::FilterResult<usize, ZErr> { zoo_rt::called(); match sel(lex) { 0 => logos::FilterResult::Skip, 1 => logos::FilterResult::Error(ZErr::Default), _ => logos::FilterResult::Emit(lex.slice().len()) } }',
 }
